@@ -92,6 +92,7 @@ UNIT = dict(
                  ("C01:successful_append_extends_the_topic_log_by_exactly_this_payload", "ret is Ok ==> topic_log(*final(self), *final(sys)) == topic_log(*old(self), *old(sys)).push(data@)"),
                  ("C01,C07:writer_stays_wellformed", "wf_writer(final(self).current_block, final(self).current_offset, *final(sys)) && wf_chain(final(self).reader.chain_log@, final(self).current_block, final(self).current_offset, *final(sys))"),
                  ("C04:append_never_renames_the_topic", "final(self).col == old(self).col"),
+                 ("C10:with_SyncEach_an_acknowledged_append_was_flushed_after_it_was_written", "(old(self).fsync_schedule is SyncEach && ret is Ok) ==> final(sys).synced@.contains(final(self).current_block.mmap.file)"),
              ]),
     ],
 )
